@@ -55,6 +55,9 @@ static int cb(struct dl_phdr_info *info, size_t, void *)
 
 void image_snapshot()
 {
+#ifdef RKSIM_ASAN_LANE
+  return;
+#endif
   nregions = 0;
   dl_iterate_phdr(cb, nullptr);
   if (!nregions) {
@@ -70,6 +73,9 @@ void image_snapshot()
 
 void image_restore()
 {
+#ifdef RKSIM_ASAN_LANE
+  return;  // the single-task lanes keep no state in the library image; copying over ASan's global red zones is not allowed
+#endif
   for (int i = 0; i < nregions; i++)
     memcpy((void *)regions[i].lo, regions[i].copy, regions[i].hi - regions[i].lo);
 }
